@@ -46,6 +46,9 @@ def time_axis(kind: str, n: int, t0: float = -1.0) -> list[float]:
     (PFID lives there), without an IRF at zero (exp(-k t) is not a model for t < 0)."""
     if kind == "uniform":
         t = t0 + 0.125 * np.arange(n)
+    elif kind == "integer":
+        # whole numbers (np.arange): handed to the library as an integer array, see axes_of
+        t = float(int(t0)) + np.arange(min(n, 40))
     elif kind == "two_step":
         n_dense = int((1.0 - t0) / 0.125) + 1  # step 1/8 up to t = 1, then step 1/2
         a = t0 + 0.125 * np.arange(n_dense)
@@ -57,7 +60,7 @@ def time_axis(kind: str, n: int, t0: float = -1.0) -> list[float]:
 
 
 def _draw_time(draw, small=False, irf=True):
-    return time_axis(draw(st.sampled_from(["uniform", "two_step", "two_step", "quadratic"])), draw(st.integers(28, 44 if small else 64)),
+    return time_axis(draw(st.sampled_from(["uniform", "two_step", "two_step", "quadratic", "integer"])), draw(st.integers(28, 44 if small else 64)),
                      draw(st.sampled_from([-1.0, -0.5, -1.5])) if irf else 0.0)
 
 
@@ -817,6 +820,12 @@ def grid_compose(tier):
                 b.dataset("dataset_1", list(sel), irf="irf1" if irf_kind != "none" else None, ic="j1" if needs_ic else None,
                           mc_scale=[2.0, 0.5, 3.0][:k] if (len(cases) % 3) else None)
                 cases.append(_case(b, {"dataset_1": _axes(time_axis("two_step", 24, 0.0 if irf_kind == "none" else -1.0), SPECTRAL_POOL[2:5])}, "time"))
+        # a time axis of whole numbers, handed over as an integer array
+        for k in (2, 3):
+            for sel in itertools.permutations(["mc_par", "mc_seq", "mc_base", "mc_osc"], k):
+                b = compose_pool(irf_kind)
+                b.dataset("dataset_1", list(sel), irf="irf1" if irf_kind != "none" else None)
+                cases.append(_case(b, {"dataset_1": _axes(time_axis("integer", 24, 0.0 if irf_kind == "none" else -1.0), SPECTRAL_POOL[2:5])}, "time"))
         # complete overlap: megacomplexes over the same label set listed in another order
         for k in (2, 3):
             for sel in itertools.permutations(["mc_par", "mc_par_r", "mc_osc", "mc_osc_r", "mc_base"], k):
